@@ -46,3 +46,21 @@ package common
 //@   loop 3 invariant count("dynamic:param:unmarshal") == 1
 //@   noeffect dynamic:param:unmarshal compat.IsValidLabelName
 //@   assigns nothing
+
+// ---- C17 / C07: the textual form of a matcher list is one line per matcher, in order, each the matcher's own printed
+// form (the one the parsers read back - escaping included); nothing is re-quoted on the way.
+//@ func (Matchers).MarshalYAML
+//@   props C17 C07 C16
+//@   assumes forall i int :: 0 <= i && i < len(m) ==> m[i] != nil
+//@   at call Matcher).String assert [each-matcher_s-own-printed-form] arg0 == m[rangeindex1 + 1]
+//@   ensures [one-line-per-matcher] result1 == nil && count("Matcher).String") == len(m) && !called("strconv.Quote")
+//@   loop 1 invariant rangeindex < len(m) && count("Matcher).String") == rangeindex + 1 && !called("strconv.Quote") && (forall i int :: 0 <= i && i < len(m) ==> m[i] != nil)
+//@   noeffect Matcher).String
+//@ func (Matchers).MarshalJSON
+//@   props C17 C07 C16
+//@   nosafe
+//@   assumes forall i int :: 0 <= i && i < len(m) ==> m[i] != nil
+//@   at call Matcher).String assert [each-matcher_s-own-printed-form] arg0 == m[rangeindex1 + 1]
+//@   ensures [one-line-per-matcher] count("Matcher).String") == len(m) && !called("strconv.Quote")
+//@   loop 1 invariant rangeindex < len(m) && count("Matcher).String") == rangeindex + 1 && !called("strconv.Quote")
+//@   noeffect Matcher).String
